@@ -213,3 +213,11 @@ def run(repo, rep, tier):
     if i.rule == 'R4/single-source':
       i.rule = 'R3/single-source'
   r4_selectors(repo, rep)
+  # the index setter relies on get_eligible_assignments(geos, indices=True) narrowing to `geos` in the given order (C16.R3)
+  from mmsa.props import c16
+  sub = type(rep)(rep.prop, rep.tier, rep.repo)
+  c16.r3_selection(repo, sub)
+  for i in sub.instances:
+    if i.rule.startswith('R3/selection') or i.rule.startswith('R4/none-vs-empty'):
+      i.rule = 'R3/index-selection'
+      rep.instances.append(i)
